@@ -72,11 +72,27 @@ CONFIG = {
             "MessageStepX and SqlStep_3 are not registered with ReadStep and are exercised through their own Write/Read only",
         ],
     },
+    "C20": {
+        "level": "exploration",
+        "rule": "C20: triples of related values (clone, local mutation, same-type, any-type) with all nine ordered Equals/CompareTo results checked against the algebraic laws.",
+        "groups": [G("c20", shards={"quick": 4, "thorough": 16}, timeout={"quick": 300, "thorough": 2400})],
+        "assumptions": [
+            "NaN is excluded from float scalars, summaries and float arrays (the library compares with IEEE ==, which is not reflexive on NaN; the statement does not quantify over NaN)",
+            "values are built through the public constructors with non-nil payloads (nil and empty slices are distinguished by the comparison helpers on purpose)",
+            "comparison with a nil interface value is outside the domain",
+            "summaries count as scalars for the zero-iff-equal clause (equality and comparison both look at sum and count only)",
+        ],
+    },
 }
 
 NOT_APPLICABLE = {}
 
 MANIFEST_TEXT = {
+    "C20": {
+        "technique": "property-based testing: generated triples of near values checked against algebraic laws (totality, reflexivity, symmetry, transitivity, antisymmetry, type ordering, decode equality)",
+        "level_text": "Generated-input exploration: each case is a triple of related values over all 20 types (clones, single mutations such as a reordered or re-keyed map, a changed summary count, a retyped element, independent values); all nine ordered pairs are evaluated and every law of the statement is asserted on them, plus the full 20x20 mixed-type matrix.",
+        "level_note": "Laws are checked on sampled triples; transitivity violations that need three specific unrelated values may be missed.",
+    },
     "C08": {
         "technique": "property-based testing: generated step lists and records, round-trip with per-step consumption accounting, concatenation and re-encoding oracles",
         "level_text": "Generated-input exploration: lists of up to 60 steps with all fields filled are encoded, carried through the three packs that embed step blobs, and decoded step by step with the number of bytes each step consumes compared with its own encoding; transaction and service records cover every combination of their optional groups.",
